@@ -29,6 +29,7 @@ func init() {
 			{Name: "shift-early-return-when-idle", File: "mcache.go", Old: "func (mc *MessageCache) Shift() {\n", New: "func (mc *MessageCache) Shift() {\n\tif len(mc.history[0]) == 0 {\n\t\treturn\n\t}\n", Expect: "B14"},
 			{Name: "shift-keeps-peertx", File: "mcache.go", Old: "\t\tdelete(mc.msgs, entry.mid)\n\t\tdelete(mc.peertx, entry.mid)\n", New: "\t\tdelete(mc.msgs, entry.mid)\n", Expect: "B14"},
 			{Name: "validate-history-lt", File: "gossipsub.go", Old: "\tif !(params.HistoryGossip <= params.HistoryLength) {", New: "\tif !(params.HistoryGossip <= params.HistoryLength+1) {", Expect: "B15"},
+			{Name: "validate-allows-empty-history", File: "gossipsub.go", Old: "\tif params.HistoryLength <= 0 || params.HistoryGossip < 0 {", New: "\tif params.HistoryLength < 0 || params.HistoryGossip < 0 {", Expect: "B15"},
 			{Name: "iwant-key-not-checksum", File: "gossipsub.go", Old: "\t\t\tif _, ok := gs.unwanted[p][computeChecksum(mid)]; ok {", New: "\t\t\tif _, ok := gs.unwanted[p][checksum{}]; ok {", Expect: "B16"},
 			{Name: "heartbeat-shift-before-flush", File: "gossipsub.go", Old: "\tgs.flush()\n\n\t// advance the message history window\n\tgs.mcache.Shift()\n", New: "\t// advance the message history window\n\tgs.mcache.Shift()\n\n\tgs.flush()\n", Expect: "SCHED"},
 			{Name: "heartbeat-skip-ihave-reset", File: "gossipsub.go", Old: "\t// clean up iasked counters\n\tgs.clearIHaveCounters()\n", New: "\t// clean up iasked counters\n\tif gs.heartbeatTicks%2 == 0 {\n\t\tgs.clearIHaveCounters()\n\t}\n", Expect: "SCHED"},
@@ -506,6 +507,19 @@ func runC17(c *RuleCtx) {
 			c.Undecided("B15", f.Name, "return nil", f.Decl, "no accepting return")
 		}
 	}
+	// B15b: the cache geometry is usable for every accepted parameter set (history[0] and history[len-1] exist, history[:gossip] is valid)
+	if f := c.MustFn("B15", "(*GossipSubParams).validate"); f != nil {
+		noSlots := AtomCmp("HistoryLength <= 0", prm("HistoryLength"), "<=", isZero)
+		negGossip := AtomCmp("HistoryGossip < 0", prm("HistoryGossip"), "<", isZero)
+		returnsIn(f, func(r *ast.ReturnStmt) {
+			if len(r.Results) == 1 && isNilV(p.R(f).Val(r.Results[0])) {
+				ok, why := p.DomAny(f, r, AtomWant{noSlots, false})
+				c.Check(ok, "B15", f.Name, "accepted only with at least one history slot", r, why, "a parameter set with HistoryLength <= 0 can be accepted: MessageCache.Put/Shift index an empty history and panic the event loop: "+why)
+				ok, why = p.DomAny(f, r, AtomWant{negGossip, false})
+				c.Check(ok, "B15", f.Name, "accepted only with a non-negative gossip window", r, why, "a negative HistoryGossip can be accepted: history[:gossip] panics: "+why)
+			}
+		})
+	}
 	// ---------------- B16 key agreement
 	{
 		n := 0
@@ -794,7 +808,7 @@ func runC17(c *RuleCtx) {
 	c.Min["B12"] = 4
 	c.Min["B13"] = 2
 	c.Min["B14"] = 7
-	c.Min["B15"] = 2
+	c.Min["B15"] = 6
 	c.Min["B16"] = 3
 	c.Min["SCHED"] = 30
 	c.Min["PROM"] = 18
